@@ -94,10 +94,16 @@ _rm_when0, _rm_post0 = _rm_raises["FileNotFoundError"]
 _rm.raises = {"FileNotFoundError": (lambda c: Ite(c.h.get("FileSystem.is_local", c.self), Not(lfiles(c.h).contains(c.path)), _rm_when0(c)),
                                     lambda c: And(_rm_post0(c), lfiles(c.h) == lfiles(c.h0), l444(c.h) == l444(c.h0)))}
 
+def chmod_ok():
+    """the filesystem lets the owner change mode bits (false on the 'funky' filesystems protect() shrugs off)"""
+    return SV(z3.Bool("chmod_ok"), TBool)
+
+
 contract(
     f"{L}:LocalHashFileDB.protect", params=dict(self=HashFileDB, path=TStr),
     modifies=lambda c: [("G.l444",)],
-    ensures=lambda c: Or(l444(c.h) == l444(c.h0), And(l444(c.h) == l444(c.h0).add(c.path), lfiles(c.h).contains(c.path))),
+    ensures=lambda c: And(Or(l444(c.h) == l444(c.h0), And(l444(c.h) == l444(c.h0).add(c.path), lfiles(c.h).contains(c.path))),
+                          Implies(And(chmod_ok(), lfiles(c.h).contains(c.path)), l444(c.h) == l444(c.h0).add(c.path))),
     assumed=True, verify=False,
     doc="os.chmod(path, 0o444), failures swallowed: at most this one path becomes protected; nothing is unprotected",
 )
@@ -379,7 +385,17 @@ def _loop_post(c):  # `for o, cache_path in oid_cache_paths.items()`: check then
                        patterns=[c.oid[j].t]), TBool)
     same = SV(z3.ForAll([j.t], Implies(And(j >= 0, j < c.oid.length()), And(K[j] == c.oid[j], c.loc.oid_cache_paths[c.oid[j]] == O(path, c.oid[j].val))).t,
                        patterns=[c.oid[j].t, K[j].t]), TBool)
-    return And(crash_inv(c), _sinv(c), Or(_verify0(c), _present_ok(c)), done)
+    return And(crash_inv(c), _sinv(c), Or(_verify0(c), _present_ok(c)), done, _readonly_prefix(c, c.idx))
+
+
+def _readonly_prefix(c, n):
+    """C01: objects added to a LOCAL store end up read-only (where the filesystem lets modes be changed): every requested
+    object among the first n that is present is write-protected"""
+    j = SV(z3.Int("j!ro"), TInt)
+    path = c.h0.get("HashFileDB.path", c.self)
+    return Implies(And(chmod_ok(), c.engine.dyn_class_is(c.self, "LocalHashFileDB")),
+                   SV(z3.ForAll([j.t], Implies(And(j >= 0, j < n, lfiles(c.h).contains(O(path, c.oid[j].val))),
+                                               l444(c.h).contains(O(path, c.oid[j].val))).t, patterns=[c.oid[j].t]), TBool))
 
 
 def _all_some(K):
@@ -421,6 +437,7 @@ def _add_post(c):
     verify = Ite(And(SV(present, TBool), kv.is_some), kv.val, c.h0.get("HashFileDB.verify", c.self))
     return And(
         crash_inv(c),
+        _readonly_prefix(c, c.oid.length()),
         # C07: a store configured to verify never retains a mismatching (unprotected) object after an add
         Implies(And(verify, Not(c.hardlink)),
                 SV(z3.ForAll([j.t], Implies(And(j >= 0, j < c.oid.length(), lfiles(c.h).contains(O(path, c.oid[j].val))),
